@@ -1,5 +1,5 @@
-(* C07 — proofs, part 16: THE FINAL-VALUE THEOREM under the guards of findings `final-tail-empty` and
-   `for-final-floor`. *)
+(* C07 — proofs, part 16: THE FINAL-VALUE THEOREM under the guard of finding `final-tail-empty` (the former second
+   guard, for finding `for-final-floor`, is gone: ForLoopPT.final_values was repaired). *)
 From Coq Require Import ZArith QArith Qround List Bool Lia Lra Lqa.
 Require Import QV.C07.Model QV.C07.Spec QV.C07.Wf QV.C07.ProofsRange QV.C07.ProofsLoop QV.C07.ProofsAtoms
                QV.C07.ProofsExpr QV.C07.ProofsPt QV.C07.ProofsDict QV.C07.ProofsSum QV.C07.ProofsKeysQ QV.C07.ProofsKeysD
@@ -8,7 +8,7 @@ Import ListNotations.
 Open Scope Q_scope.
 
 Definition fin_ok (p : pt) : Prop := forall rho pcs c e x v,
-  wf p = true -> guard_C07_final_tail p rho = true -> guard_C07_for_final_floor_path p rho = true ->
+  wf p = true -> guard_C07_final_tail p rho = true ->
   denote p rho = Some pcs -> dget c (quant QFinal p) = Some e -> p_end pcs c = Some x -> eval rho e = Some v -> v == x.
 
 (* named guard fixpoints *)
@@ -17,24 +17,12 @@ Definition gseq_tail (rho : env) : list pt -> bool :=
     match l with [] => true | [q] => nonempty (denote q rho) && guard_C07_final_tail q rho | _ :: r => go r end.
 Lemma gtail_Seq ps rho : guard_C07_final_tail (Seq ps) rho = gseq_tail rho ps.
 Proof. reflexivity. Qed.
-Definition gseq_floor (rho : env) : list pt -> bool :=
-  fix go (l : list pt) : bool :=
-    match l with [] => true | [q] => guard_C07_for_final_floor_path q rho | _ :: r => go r end.
-Lemma gfloor_Seq ps rho : guard_C07_for_final_floor_path (Seq ps) rho = gseq_floor rho ps.
-Proof. reflexivity. Qed.
 Definition gmulti_tail (rho : env) : list pt -> bool :=
   fix go (l : list pt) : bool := match l with [] => true | q :: r => guard_C07_final_tail q rho && go r end.
 Lemma gtail_Multi ps rho : guard_C07_final_tail (Multi ps) rho = gmulti_tail rho ps.
 Proof. reflexivity. Qed.
-Definition gmulti_floor (rho : env) : list pt -> bool :=
-  fix go (l : list pt) : bool := match l with [] => true | q :: r => guard_C07_for_final_floor_path q rho && go r end.
-Lemma gfloor_Multi ps rho : guard_C07_for_final_floor_path (Multi ps) rho = gmulti_floor rho ps.
-Proof. reflexivity. Qed.
 Lemma gmulti_tail_Forall rho l : gmulti_tail rho l = true -> Forall (fun q => guard_C07_final_tail q rho = true) l.
 Proof. induction l as [|q r IH]; intros H; constructor; cbn [gmulti_tail] in H; apply andb_prop in H as (H1 & H2); auto. Qed.
-Lemma gmulti_floor_Forall rho l : gmulti_floor rho l = true -> Forall (fun q => guard_C07_for_final_floor_path q rho = true) l.
-Proof. induction l as [|q r IH]; intros H; constructor; cbn [gmulti_floor] in H; apply andb_prop in H as (H1 & H2); auto. Qed.
-
 Lemma p_end_single d fs c : p_end [(d, fs)] c = option_map f_end (dget c fs).
 Proof. reflexivity. Qed.
 
@@ -58,7 +46,7 @@ Qed.
 
 Lemma fin_Table chs : fin_ok (Table chs).
 Proof.
-  intros rho pcs c e x v Hwf _ _ Hd Hc Hx Hv. cbn [wf] in Hwf. apply andb_prop in Hwf as (_ & Hne).
+  intros rho pcs c e x v Hwf _ Hd Hc Hx Hv. cbn [wf] in Hwf. apply andb_prop in Hwf as (_ & Hne).
   rewrite dget_fin_Table in Hc. destruct (dget c chs) as [es|] eqn:Ees; [|discriminate]. inversion Hc; subst e; clear Hc.
   cbn [denote] in Hd.
   destruct (opt_all (map (fun ch => option_map (fun l => (fst ch, l)) (opt_all (map (eval_entry rho) (snd ch)))) chs)) as [nchs|] eqn:E1; [|discriminate].
@@ -97,7 +85,7 @@ Proof. induction l as [|a l IH]; [reflexivity|]. destruct l as [|b l]; [reflexiv
 
 Lemma fin_Point cs ents : fin_ok (Point cs ents).
 Proof.
-  intros rho pcs c e x v Hwf _ _ Hd Hc Hx Hv. cbn [wf] in Hwf. apply andb_prop in Hwf as (_ & Hwf).
+  intros rho pcs c e x v Hwf _ Hd Hc Hx Hv. cbn [wf] in Hwf. apply andb_prop in Hwf as (_ & Hwf).
   destruct ents as [|[[t0 v0] ip0] ents']; [cbv iota in Hwf; discriminate Hwf|].
   rewrite denote_Point in Hd. revert Hd. match goal with |- match ?z with _ => _ end = _ -> _ => destruct z as [l0|] eqn:E0 end; [|discriminate]. cbv zeta.
   match goal with |- match ?z with _ => _ end = _ -> _ => destruct z as [fs|] eqn:Efs end; [|discriminate].
@@ -122,7 +110,7 @@ Qed.
 
 Lemma fin_Const d vals : fin_ok (Const d vals).
 Proof.
-  intros rho pcs c e x v Hwf _ _ Hd Hc Hx Hv. cbn [quant] in Hc. cbn [denote] in Hd.
+  intros rho pcs c e x v Hwf _ Hd Hc Hx Hv. cbn [quant] in Hc. cbn [denote] in Hd.
   destruct (eval rho d) as [dd|]; [|discriminate]. destruct (Qle_bool dd 0).
   - destruct (Qle_bool 0 dd); inversion Hd; subst; discriminate.
   - destruct (opt_all (map (fun kv => option_map (fun q => (fst kv, q)) (eval rho (snd kv))) vals)) as [vs|] eqn:Evs; [|discriminate].
@@ -134,7 +122,7 @@ Qed.
 
 Lemma fin_Func c0 d coef : fin_ok (Func c0 d coef).
 Proof.
-  intros rho pcs c e x v Hwf _ _ Hd Hc Hx Hv. cbn [wf] in Hwf. apply andb_prop in Hwf as (_ & Hnt).
+  intros rho pcs c e x v Hwf _ Hd Hc Hx Hv. cbn [wf] in Hwf. apply andb_prop in Hwf as (_ & Hnt).
   cbn [quant dget] in Hc. destruct (N.eqb c0 c) eqn:E; [|discriminate]. inversion Hc; subst e.
   cbn [denote] in Hd. destruct (eval rho d) as [dd|] eqn:Ed; [|discriminate].
   destruct (opt_all (map (eval rho) coef)) as [cf|] eqn:Ecf; [|discriminate]. destruct (Qle_bool dd 0); [discriminate|].
@@ -157,33 +145,33 @@ Qed.
 
 Lemma fin_Seq ps : Forall fin_ok ps -> fin_ok (Seq ps).
 Proof.
-  intros HI rho pcs c e x v Hwf Hg1 Hg2 Hd Hc Hx Hv. destruct ps as [|q0 r]; [cbn in Hc; discriminate|].
+  intros HI rho pcs c e x v Hwf Hg1 Hd Hc Hx Hv. destruct ps as [|q0 r]; [cbn in Hc; discriminate|].
   rewrite wf_Seq in Hwf. apply andb_prop in Hwf as (_ & Hwf). pose proof (wf_seq_Forall _ _ Hwf) as HF.
-  rewrite gtail_Seq in Hg1. rewrite gfloor_Seq in Hg2. rewrite denote_Seq in Hd. rewrite quant_fin_Seq in Hc.
-  clear Hwf. revert pcs Hd Hg1 Hg2 Hc Hx HI HF. generalize (q0 :: r) as l. intros l.
-  induction l as [|s l IH]; intros pcs Hd Hg1 Hg2 Hc Hx HI HF; [discriminate|].
+  rewrite gtail_Seq in Hg1. rewrite denote_Seq in Hd. rewrite quant_fin_Seq in Hc.
+  clear Hwf. revert pcs Hd Hg1 Hc Hx HI HF. generalize (q0 :: r) as l. intros l.
+  induction l as [|s l IH]; intros pcs Hd Hg1 Hc Hx HI HF; [discriminate|].
   inversion HI as [|? ? Hs HI']; subst. inversion HF as [|? ? (Hw & _) HF']; subst.
   rewrite den_seq_cons in Hd. destruct (denote s rho) as [a|] eqn:Ea; [|discriminate].
   destruct (den_seq rho l) as [b|] eqn:Eb; [|discriminate]. inversion Hd; subst pcs.
   destruct l as [|s' l'].
   - inversion Eb; subst b. rewrite app_nil_r in Hx. rewrite fin_seq_one in Hc.
-    cbn [gseq_tail] in Hg1. apply andb_prop in Hg1 as (_ & Hg1). cbn [gseq_floor] in Hg2.
-    exact (Hs rho a c e x v Hw Hg1 Hg2 Ea Hc Hx Hv).
+    cbn [gseq_tail] in Hg1. apply andb_prop in Hg1 as (_ & Hg1).
+    exact (Hs rho a c e x v Hw Hg1 Ea Hc Hx Hv).
   - rewrite fin_seq_cons in Hc.
     assert (Hb : b <> []) by (apply (gseq_tail_nonempty rho (s' :: l') b); [discriminate|exact Hg1|exact Eb]).
-    rewrite p_end_app in Hx by exact Hb. exact (IH b eq_refl Hg1 Hg2 Hc Hx HI' HF').
+    rewrite p_end_app in Hx by exact Hb. exact (IH b eq_refl Hg1 Hc Hx HI' HF').
 Qed.
 
 Lemma fin_Rep n b : fin_ok b -> fin_ok (Rep n b).
 Proof.
-  intros HI rho pcs c e x v Hwf Hg1 Hg2 Hd Hc Hx Hv. cbn [wf] in Hwf. apply andb_prop in Hwf as (_ & Hwf).
-  cbn [guard_C07_final_tail] in Hg1. cbn [guard_C07_for_final_floor_path] in Hg2. cbn [quant] in Hc. cbn [denote] in Hd.
+  intros HI rho pcs c e x v Hwf Hg1 Hd Hc Hx Hv. cbn [wf] in Hwf. apply andb_prop in Hwf as (_ & Hwf).
+  cbn [guard_C07_final_tail] in Hg1. cbn [quant] in Hc. cbn [denote] in Hd.
   destruct (as_int (eval rho n)) as [k|]; [|discriminate]. destruct (k =? 0)%Z eqn:E0; [inversion Hd; subst; discriminate|].
   destruct (denote b rho) as [pb|] eqn:Eb; [|discriminate]. destruct ((k <? 0)%Z || (RANGE_LIMIT <? k)%Z) eqn:El; [discriminate|].
   inversion Hd; subst pcs. destruct (Z.to_nat k) as [|m] eqn:Ek; [lia|].
   destruct pb as [|pc pb]; [rewrite repeat_nil in Hx; discriminate|].
   rewrite p_end_lastp, lastp_repeat in Hx by discriminate. rewrite <- p_end_lastp in Hx.
-  exact (HI rho _ c e x v Hwf Hg1 Hg2 Eb Hc Hx Hv).
+  exact (HI rho _ c e x v Hwf Hg1 Eb Hc Hx Hv).
 Qed.
 
 (* ---- ForLoopPT ---- *)
@@ -201,15 +189,15 @@ Qed.
 
 Lemma fin_For i a o s b : fin_ok b -> fin_ok (For i a o s b).
 Proof.
-  intros HI rho pcs c e x v Hwf Hg1 Hg2 Hd Hc Hx Hv. cbn [wf] in Hwf. apply andb_prop in Hwf as (_ & Hwf). apply andb_prop in Hwf as (_ & Hwf).
+  intros HI rho pcs c e x v Hwf Hg1 Hd Hc Hx Hv. cbn [wf] in Hwf. apply andb_prop in Hwf as (_ & Hwf). apply andb_prop in Hwf as (_ & Hwf).
   cbn [quant] in Hc. rewrite dget_dmap in Hc. destruct (dget c (quant QFinal b)) as [eb|] eqn:Eeb; [|discriminate].
   inversion Hc; subst e. clear Hc.
-  cbn [guard_C07_final_tail] in Hg1. unfold for_range in Hg1. cbn [guard_C07_for_final_floor_path] in Hg2.
+  cbn [guard_C07_final_tail] in Hg1. unfold for_range in Hg1.
   rewrite denote_For in Hd. destruct (as_int (eval rho a)) as [za|] eqn:Ea; [|discriminate].
   destruct (as_int (eval rho o)) as [zo|] eqn:Eo; [|discriminate]. destruct (as_int (eval rho s)) as [zs|] eqn:Es; [|discriminate].
   destruct (py_range za zo zs) as [ks|] eqn:Er; [|discriminate].
   destruct ks as [|k0 ks]; [inversion Hd; subst; discriminate|].
-  apply andb_prop in Hg1 as (Hne & Hg1). apply andb_prop in Hg2 as (Hfl & Hg2). apply Z.eqb_eq in Hfl.
+  apply andb_prop in Hg1 as (Hne & Hg1).
   set (kl := last ks k0) in *.
   assert (Hsplit : exists ks', k0 :: ks = ks' ++ [kl]).
   { destruct (@exists_last _ (k0 :: ks) ltac:(discriminate)) as (ks' & kx & Hk). exists ks'. rewrite Hk. f_equal. f_equal.
@@ -219,38 +207,38 @@ Proof.
   rewrite Ebl in Hne. rewrite p_end_app in Hx by (destruct bl; [discriminate|discriminate]).
   destruct (py_range_spec _ _ _ _ Er) as (Hzs & _ & _).
   destruct (eval_loop_final_index rho a o s za zo zs (as_int_val _ _ _ Ea) (as_int_val _ _ _ Eo) (as_int_val _ _ _ Es) Hzs) as (q & Eq & Hq).
-  rewrite Hfl in Hq.
+  rewrite (last_index_ok za zo zs (k0 :: ks) Er ltac:(discriminate)), (last_cons k0 ks 0%Z) in Hq. fold kl in Hq.
   destruct (eval_subst_index rho i (loop_final_index a o s) eb q kl v Eq Hq Hv) as (w & Ew & Hw). rewrite Hw.
-  exact (HI _ bl c eb x w Hwf Hg1 Hg2 Ebl Eeb Hx Ew).
+  exact (HI _ bl c eb x w Hwf Hg1 Ebl Eeb Hx Ew).
 Qed.
 
 Lemma fin_Map b pm cm : fin_ok b -> fin_ok (Map b pm cm).
 Proof.
-  intros HI rho pcs c' e x v Hwf Hg1 Hg2 Hd Hc Hx Hv. pose proof (wf_nodup _ Hwf) as Hnd. rewrite channels_Map in Hnd.
-  cbn [wf] in Hwf. apply andb_prop in Hwf as (_ & Hwf). cbn [guard_C07_final_tail] in Hg1. cbn [guard_C07_for_final_floor_path] in Hg2.
+  intros HI rho pcs c' e x v Hwf Hg1 Hd Hc Hx Hv. pose proof (wf_nodup _ Hwf) as Hnd. rewrite channels_Map in Hnd.
+  cbn [wf] in Hwf. apply andb_prop in Hwf as (_ & Hwf). cbn [guard_C07_final_tail] in Hg1.
   cbn [quant] in Hc. rewrite map_dict_rename in Hc.
   destruct (map_lookup _ (ELet pm) cm _ (channels b) c' e (quant_keys b QFinal Hwf) (wf_nodup _ Hwf) Hnd Hc)
     as (c & eb & Ht & Hin & Eeb & -> & Hu).
   rewrite denote_Map in Hd. destruct (denote b (map_env rho pm)) as [pb|] eqn:Eb; [|discriminate]. inversion Hd; subst pcs.
   rewrite eval_ELet, <- map_env_let_env in Hv.
-  apply (HI _ pb c eb x v Hwf Hg1 Hg2 Eb Eeb); [|exact Hv]. rewrite <- Hx. apply p_end_congr. apply Forall2_map_r. intros pc Hpc.
+  apply (HI _ pb c eb x v Hwf Hg1 Eb Eeb); [|exact Hv]. rewrite <- Hx. apply p_end_congr. apply Forall2_map_r. intros pc Hpc.
   split; [reflexivity|]. pose proof (piece_keys b _ _ Hwf Eb) as HK. rewrite Forall_forall in HK. symmetry.
   apply (piece_rename_dget cm pc (channels b) c c' (HK pc Hpc) Hin Ht Hu).
 Qed.
 
 Lemma fin_ok_single s rho pc c e f : fin_ok s -> wf s = true -> guard_C07_final_tail s rho = true ->
-  guard_C07_for_final_floor_path s rho = true -> denote s rho = Some [pc] ->
+  denote s rho = Some [pc] ->
   dget c (quant QFinal s) = Some e -> dget c (snd pc) = Some f -> okL L_end rho e (fst pc) f.
 Proof.
-  intros HI Hw Hg1 Hg2 Hd He Hf v Hv. apply (HI rho [pc] c e (f_end f) v Hw Hg1 Hg2 Hd He); [|exact Hv].
+  intros HI Hw Hg1 Hd He Hf v Hv. apply (HI rho [pc] c e (f_end f) v Hw Hg1 Hd He); [|exact Hv].
   rewrite p_end_lastp. cbn [lastp]. rewrite Hf. reflexivity.
 Qed.
 
 Lemma fin_Multi ps : Forall fin_ok ps -> fin_ok (Multi ps).
 Proof.
-  intros HI rho pcs c e x v Hwf Hg1 Hg2 Hd Hc Hx Hv. rewrite wf_Multi in Hwf. apply andb_prop in Hwf as (Hnd & Hwf).
-  pose proof (wf_multi_Forall _ Hwf) as HW. rewrite gtail_Multi in Hg1. rewrite gfloor_Multi in Hg2.
-  pose proof (gmulti_tail_Forall _ _ Hg1) as HG1. pose proof (gmulti_floor_Forall _ _ Hg2) as HG2.
+  intros HI rho pcs c e x v Hwf Hg1 Hd Hc Hx Hv. rewrite wf_Multi in Hwf. apply andb_prop in Hwf as (Hnd & Hwf).
+  pose proof (wf_multi_Forall _ Hwf) as HW. rewrite gtail_Multi in Hg1.
+  pose proof (gmulti_tail_Forall _ _ Hg1) as HG1.
   rewrite denote_Multi in Hd. rewrite quant_Multi in Hc.
   destruct ps as [|q r]; [discriminate|]. destruct (den_multi_first _ _ _ _ Hd) as (pc0 & d0 & _ & ->).
   assert (HR : Forall (fun s => forall pc c e f, denote s rho = Some [pc] -> dget c (quant QFinal s) = Some e ->
@@ -263,9 +251,8 @@ Qed.
 
 Lemma fin_AAtom l op r : fin_ok l -> fin_ok r -> fin_ok (AAtom l op r).
 Proof.
-  intros HIl HIr rho pcs c e x v Hwf Hg1 Hg2 Hd Hc Hx Hv. cbn [wf] in Hwf. apply andb_prop in Hwf as (_ & Hwf). apply andb_prop in Hwf as (Hw1 & Hw2).
+  intros HIl HIr rho pcs c e x v Hwf Hg1 Hd Hc Hx Hv. cbn [wf] in Hwf. apply andb_prop in Hwf as (_ & Hwf). apply andb_prop in Hwf as (Hw1 & Hw2).
   cbn [guard_C07_final_tail] in Hg1. apply andb_prop in Hg1 as (Hg1l & Hg1r).
-  cbn [guard_C07_for_final_floor_path] in Hg2. apply andb_prop in Hg2 as (Hg2l & Hg2r).
   cbn [denote] in Hd. destruct (denote l rho) as [[|pl [|? ?]]|] eqn:E1; try discriminate.
   destruct (denote r rho) as [[|pr [|? ?]]|] eqn:E2; try discriminate.
   destruct (merge_atomic op pl pr) as [pc|] eqn:Em; [|discriminate]. inversion Hd; subst pcs. cbn [quant] in Hc.
@@ -275,8 +262,8 @@ Proof.
   destruct (aatom_rule L_end rho op (quant QFinal l) (quant QFinal r) pl pr pc c e Em Qr1 Pr1) as (f & Ef & Hok).
   - intros c1. rewrite Ql2, Pl2. reflexivity.
   - intros c1. rewrite Qr2, Pr2. reflexivity.
-  - intros c1 e1 f1 H1 H2. exact (fin_ok_single l rho pl c1 e1 f1 HIl Hw1 Hg1l Hg2l E1 H1 H2).
-  - intros c1 e1 f1 H1 H2. exact (fin_ok_single r rho pr c1 e1 f1 HIr Hw2 Hg1r Hg2r E2 H1 H2).
+  - intros c1 e1 f1 H1 H2. exact (fin_ok_single l rho pl c1 e1 f1 HIl Hw1 Hg1l E1 H1 H2).
+  - intros c1 e1 f1 H1 H2. exact (fin_ok_single r rho pr c1 e1 f1 HIr Hw2 Hg1r E2 H1 H2).
   - exact Hc.
   - destruct pc as [dpc fpc]. rewrite p_end_single in Hx. cbn [snd] in Ef. rewrite Ef in Hx. inversion Hx; subst x. exact (Hok v Hv).
 Qed.
@@ -305,9 +292,9 @@ Proof. induction pb as [|x r IH]; [reflexivity|]. destruct r as [|y r]; [reflexi
 
 Lemma fin_Par b ov : fin_ok b -> fin_ok (Par b ov).
 Proof.
-  intros HI rho pcs c e x v Hwf Hg1 Hg2 Hd Hc Hx Hv. cbn [wf] in Hwf. apply andb_prop in Hwf as (_ & Hwf). apply andb_prop in Hwf as (Hwf & Hat).
+  intros HI rho pcs c e x v Hwf Hg1 Hd Hc Hx Hv. cbn [wf] in Hwf. apply andb_prop in Hwf as (_ & Hwf). apply andb_prop in Hwf as (Hwf & Hat).
   apply andb_prop in Hwf as (Hwf & Hnt). apply andb_prop in Hwf as (Hwf & Hno).
-  cbn [guard_C07_final_tail] in Hg1. cbn [guard_C07_for_final_floor_path] in Hg2.
+  cbn [guard_C07_final_tail] in Hg1.
   cbn [denote] in Hd. destruct (denote b rho) as [pb|] eqn:Eb; [|discriminate].
   destruct (opt_all (map (fun kv => option_map (fun cf => (fst kv, cf)) (opt_all (map (eval rho) (snd kv)))) ov)) as [ovs|] eqn:Eo; [|discriminate].
   inversion Hd; subst pcs. clear Hd.
@@ -338,14 +325,14 @@ Proof.
       destruct (eval_poly_expr rho dv cfe cf HF Hntc) as (w & Ew & Hw). rewrite Ew in Hv. inversion Hv; subst w.
       rewrite Hw. apply peval_comp. rewrite Hdv. ring.
     + destruct (eval_poly_expr_const rho cfe cf HF Etd (fst pc)) as (w & Ew & Hw). rewrite Ew in Hv. inversion Hv; subst w. exact Hw.
-  - rewrite G in Hx. cbn [option_map] in Hc. apply (HI rho pb c e x v Hwf Hg1 Hg2 Eb Hc); [|exact Hv].
+  - rewrite G in Hx. cbn [option_map] in Hc. apply (HI rho pb c e x v Hwf Hg1 Eb Hc); [|exact Hv].
     rewrite p_end_lastp, Elp. exact Hx.
 Qed.
 
 Lemma fin_ArithL b op s : fin_ok b -> fin_ok (ArithL b op s).
 Proof.
-  intros HI rho pcs c e x v Hwf Hg1 Hg2 Hd Hc Hx Hv. cbn [wf] in Hwf. apply andb_prop in Hwf as (_ & Hwf). apply andb_prop in Hwf as (Hwf & Hs).
-  cbn [guard_C07_final_tail] in Hg1. cbn [guard_C07_for_final_floor_path] in Hg2.
+  intros HI rho pcs c e x v Hwf Hg1 Hd Hc Hx Hv. cbn [wf] in Hwf. apply andb_prop in Hwf as (_ & Hwf). apply andb_prop in Hwf as (Hwf & Hs).
+  cbn [guard_C07_final_tail] in Hg1.
   cbn [denote] in Hd. destruct (denote b rho) as [pb|] eqn:Eb; [|discriminate].
   destruct (scalar_eval rho s (channels b)) as [sv|] eqn:Esv; [|discriminate]. apply opt_all_map_Forall2 in Hd.
   destruct (scalar_dict_keys s (channels b) (wf_nodup _ Hwf) Hs) as (S1 & S2).
@@ -356,7 +343,7 @@ Proof.
   destruct (dget c (quant QFinal b)) as [ea|] eqn:Eea.
   - destruct (arithL_plain rho op _ sv c ea e v Gs Hc Hv) as (va & a' & b' & Eva & Haff & Hvv).
     destruct (p_end_aff pb pcs c a' b' x (aff_pieces true op sv c a' b' pb pcs Hd Haff) Hx) as (X & EX & HX).
-    rewrite Hvv, HX, (HI rho pb c ea X va Hwf Hg1 Hg2 Eb Eea EX Eva). reflexivity.
+    rewrite Hvv, HX, (HI rho pb c ea X va Hwf Hg1 Eb Eea EX Eva). reflexivity.
   - exfalso. destruct (dget c (scalar_as_dict s (channels b))) as [es'|] eqn:Es'; [|discriminate].
     assert (Hm : dmem c (scalar_as_dict s (channels b)) = true) by (unfold dmem; rewrite Es'; reflexivity).
     pose proof (S2 c Hm) as Hmc. rewrite <- K2 in Hmc. unfold dmem in Hmc. rewrite Eea in Hmc. discriminate.
@@ -364,8 +351,8 @@ Qed.
 
 Lemma fin_ArithR s op b : fin_ok b -> fin_ok (ArithR s op b).
 Proof.
-  intros HI rho pcs c e x v Hwf Hg1 Hg2 Hd Hc Hx Hv. cbn [wf] in Hwf. apply andb_prop in Hwf as (_ & Hwf). apply andb_prop in Hwf as (Hwf & Hnd).
-  apply andb_prop in Hwf as (Hwf & Hs). cbn [guard_C07_final_tail] in Hg1. cbn [guard_C07_for_final_floor_path] in Hg2.
+  intros HI rho pcs c e x v Hwf Hg1 Hd Hc Hx Hv. cbn [wf] in Hwf. apply andb_prop in Hwf as (_ & Hwf). apply andb_prop in Hwf as (Hwf & Hnd).
+  apply andb_prop in Hwf as (Hwf & Hs). cbn [guard_C07_final_tail] in Hg1.
   cbn [denote] in Hd. destruct (denote b rho) as [pb|] eqn:Eb; [|discriminate].
   destruct (scalar_eval rho s (channels b)) as [sv|] eqn:Esv; [|discriminate]. apply opt_all_map_Forall2 in Hd.
   destruct (scalar_dict_keys s (channels b) (wf_nodup _ Hwf) Hs) as (S1 & S2).
@@ -376,14 +363,14 @@ Proof.
   destruct (dget c (quant QFinal b)) as [ea|] eqn:Eea.
   - destruct (arithR_plain rho op _ sv c ea e v Hnd Gs Hc Hv) as (va & a' & b' & Eva & Haff & Hvv).
     destruct (p_end_aff pb pcs c a' b' x (aff_pieces false op sv c a' b' pb pcs Hd Haff) Hx) as (X & EX & HX).
-    rewrite Hvv, HX, (HI rho pb c ea X va Hwf Hg1 Hg2 Eb Eea EX Eva). reflexivity.
+    rewrite Hvv, HX, (HI rho pb c ea X va Hwf Hg1 Eb Eea EX Eva). reflexivity.
   - exfalso. destruct (dget c (scalar_as_dict s (channels b))) as [es'|] eqn:Es'; [|discriminate].
     assert (Hm : dmem c (scalar_as_dict s (channels b)) = true) by (unfold dmem; rewrite Es'; reflexivity).
     pose proof (S2 c Hm) as Hmc. rewrite <- K2 in Hmc. unfold dmem in Hmc. rewrite Eea in Hmc. discriminate.
 Qed.
 
 Theorem final_correct : forall p rho pcs c e x v,
-  wf p = true -> guard_C07_final_tail p rho = true -> guard_C07_for_final_floor_path p rho = true ->
+  wf p = true -> guard_C07_final_tail p rho = true ->
   denote p rho = Some pcs -> dget c (quant QFinal p) = Some e -> p_end pcs c = Some x -> eval rho e = Some v -> v == x.
 Proof.
   intros p. change (fin_ok p). induction p using pt_ind'.
